@@ -60,6 +60,7 @@ type sessOpts struct {
 	control         bool // include UNSUBSCRIBE / PUBREL / PINGREQ / broker acks (C03)
 	refusedRegisters bool // broker publishes on names without an ID whose REGISTER the client accepts, refuses or ignores (C01)
 	smallIDSpace    bool // scale the topic-ID space down so that exhaustion is reachable (C04)
+	staleRegack     bool // gateway REGISTERs answered by a stale duplicate REGACK, then a client PUBLISH on a known ID (C04)
 	maxSteps        int
 }
 
@@ -150,10 +151,13 @@ func genSession(t *rapid.T, o sessOpts) sessCase {
 			kinds = append(kinds, "register", "register-new", "register-new", "bpub-new")
 		}
 		if o.refusedRegisters {
-			kinds = append(kinds, "bpub-register", "bpub-register")
+			kinds = append(kinds, "bpub-register", "bpub-register", "snrepeat", "bpub-stale-regack")
 		}
 		if o.clientPublishes || o.brokerPublishes {
 			kinds = append(kinds, "refused-connect")
+		}
+		if o.staleRegack {
+			kinds = append(kinds, "bpub-stale-regack", "bpub-stale-regack")
 		}
 		kind := rapid.SampledFrom(kinds).Draw(t, "kind")
 		if len(inflight) > 0 && kind != "bpub" {
@@ -192,6 +196,33 @@ func genSession(t *rapid.T, o sessOpts) sessCase {
 			sc.Steps = append(sc.Steps, gwgen.SetAuto(auto),
 				gwgen.MQ(gwgen.BPublish(rapid.SampledFrom(plainNames).Draw(t, "name"), byte(rapid.IntRange(0, 2).Draw(t, "qos")), 0x100+mid%0x100, []byte(fmt.Sprintf("b-%d", i)), false, false)),
 				gwgen.SetAuto(sc.Auto))
+			if !auto.ClientRegack && rapid.Bool().Draw(t, "stale_regack") {
+				// ... and while that REGISTER is unanswered a duplicate of something the client sent
+				// earlier arrives (UDP may duplicate and delay): an old REGACK, say, whose message ID
+				// the gateway has used again
+				sc.Steps = append(sc.Steps, gwsim.Step{K: "snrepeat", D: int64(rapid.IntRange(1, 2).Draw(t, "repeat"))})
+			}
+		case "snrepeat":
+			sc.Steps = append(sc.Steps, gwsim.Step{K: "snrepeat", D: int64(rapid.IntRange(1, 3).Draw(t, "repeat"))})
+		case "bpub-stale-regack":
+			// two broker publishes on new names one after the other; the client acknowledges the first
+			// REGISTER, leaves the second unanswered, and the network delivers its first REGACK once
+			// more (the gateway uses the same message ID for both REGISTERs when the publishes are
+			// QoS 0); then the client publishes on one of the IDs it was told
+			q := byte(rapid.SampledFrom([]int{0, 0, 1}).Draw(t, "qos"))
+			quiet := sc.Auto
+			quiet.ClientRegack = false
+			nextName += 2
+			sc.Steps = append(sc.Steps,
+				gwgen.MQ(gwgen.BPublish(fmt.Sprintf("n/%d", nextName-1), q, 0x100+mid%0x100, []byte(fmt.Sprintf("b-%d", i)), false, false)),
+				gwgen.SetAuto(quiet),
+				gwgen.MQ(gwgen.BPublish(fmt.Sprintf("n/%d", nextName), q, 0x101+mid%0x100, []byte(fmt.Sprintf("c-%d", i)), false, false)),
+				gwsim.Step{K: "snrepeat", D: int64(rapid.IntRange(1, 2).Draw(t, "repeat"))},
+				gwgen.SetAuto(sc.Auto))
+			if o.clientPublishes || o.staleRegack {
+				p := snref.Pkt{Type: snref.PUBLISH, TIT: snref.TITNormal, TopicID: rapid.SampledFrom([]uint16{1, 2, 3, 4, 5, 6, 7, 8}).Draw(t, "tid"), MsgID: mid, QoS: byte(rapid.IntRange(0, 1).Draw(t, "pqos")), Data: []byte("after")}
+				sc.Steps = append(sc.Steps, gwgen.SN(p))
+			}
 		case "refused-connect":
 			// a CONNECT which the gateway refuses itself (zero keep-alive, a client ID which is not
 			// an MQTT string), naming another client: the session goes on as the client it was
@@ -500,7 +531,7 @@ func endedBefore(tr *gwsim.Trace, ns int64) bool { return tr.Ended && tr.EndNs <
 func TestC01(t *testing.T) {
 	vf.Check(t, vf.Prop[sessCase]{
 		ID: "C01", Name: "client-publish-forwarded", Bubble: true,
-		Rule: "connected session (auth on/off, predefined map with client-specific and '*' entries over overlapping IDs/names, client ID inside/outside the map) with a history of REGISTER, SUBSCRIBE (plain, wildcard, short, predefined; broker grants/refuses) and broker PUBLISHes on plain names whose REGISTER the client accepts, refuses (return codes 1-3) or never answers, interleaved with client PUBLISH steps over DUP x QoS{-1,0,1,2} x retain x topic-ID type {0,1,2,3}, IDs registered / never handed out / predefined visible, shadowed or absent / short names, payload 0..8183 (the largest that fits a datagram) boundary-biased, message IDs from a small pool. Non-trivial = a publish whose topic ID was introduced by an earlier step of the script (registered ID), or a predefined ID defined for both the client and '*', or a publish that must be refused; distinct by script.",
+		Rule: "connected session (auth on/off, predefined map with client-specific and '*' entries over overlapping IDs/names, client ID inside/outside the map) with a history of REGISTER, SUBSCRIBE (plain, wildcard, short, predefined; broker grants/refuses) and broker PUBLISHes on plain names whose REGISTER the client accepts, refuses (return codes 1-3) or never answers, duplicates of the client's recent datagrams (its automatic REGACKs included), interleaved with client PUBLISH steps over DUP x QoS{-1,0,1,2} x retain x topic-ID type {0,1,2,3}, IDs registered / never handed out / predefined visible, shadowed or absent / short names, payload 0..8183 (the largest that fits a datagram) boundary-biased, message IDs from a small pool. Non-trivial = a publish whose topic ID was introduced by an earlier step of the script (registered ID), or a predefined ID defined for both the client and '*', or a publish that must be refused; distinct by script.",
 		Assumptions: []string{"IDs in a grey zone (handed out in a SUBACK the broker refused, or in a gateway REGISTER not yet acknowledged) may or may not denote: either outcome passes; an ID from a gateway REGISTER which the client refused denotes nothing",
 			"DUP=1 with QoS 0/-1 and message ID 0 with QoS 1/2 cannot be valid MQTT (C24): forwarding is optional, but if forwarded it must be unchanged"},
 		Gen: func(t *rapid.T) sessCase {
@@ -508,75 +539,81 @@ func TestC01(t *testing.T) {
 		},
 		Run: func(c sessCase) (r vf.Result) {
 			tr := gwsim.Run(c.Script)
-			k := newKnow(c)
-			seen := map[int]bool{}
-			for i, e := range tr.Events {
-				if e.Dir == gwsim.EV && e.What == "END" {
-					break
-				}
-				if e.Dir == gwsim.CG && e.SN != nil && e.SN.Type == snref.PUBLISH && !e.Auto && !seen[e.Step] && e.Step >= c.PreConnect {
-					seen[e.Step] = true
-					p := *e.SN
-					name, st := k.resolve(p.TIT, p.TopicID, false)
-					var pubs []mqttref.Pkt
-					for _, x := range stepEvents(tr, e.Step) {
-						if x.Dir == gwsim.GB && x.MQ != nil && x.MQ.Type == mqttref.PUBLISH {
-							pubs = append(pubs, *x.MQ)
-						}
-					}
-					form := fmt.Sprintf("tit=%d", p.TIT)
-					_, own := c.Script.Cfg.Predef[c.ClientID][p.TopicID]
-					_, star := c.Script.Cfg.Predef["*"][p.TopicID]
-					if (p.TIT == snref.TITNormal && st == "yes") || (p.TIT == snref.TITPredefined && own && star) || st == "no" {
-						r.NonTrivial = true
-					}
-					optional := (p.DUP && (p.QoS == 0 || p.QoS == 3)) || ((p.QoS == 1 || p.QoS == 2) && p.MsgID == 0)
-					switch st {
-					case "no":
-						r.Label("must-refuse:" + form)
-						if len(pubs) > 0 {
-							r.Fail("forwarded-undenoting-id/"+form, "PUBLISH %v denotes no topic but %v was forwarded\n%s", p, pubs[0], tr.Dump(25))
-						}
-					case "maybe":
-						r.Label("grey:" + form)
-					case "yes":
-						r.Label("must-forward:" + form)
-						if len(pubs) == 0 {
-							if optional || endedBefore(tr, e.Ns+101e6) {
-								break
-							}
-							r.Fail("not-forwarded/"+form, "PUBLISH %v (topic %q) was not forwarded\n%s", p, name, tr.Dump(25))
-							break
-						}
-						if len(pubs) > 1 {
-							r.Fail("forwarded-more-than-once/"+form, "PUBLISH %v forwarded %d times\n%s", p, len(pubs), tr.Dump(25))
-						}
-						m := pubs[0]
-						wantQ := p.QoS
-						if wantQ == 3 {
-							wantQ = 0
-						}
-						switch {
-						case m.Topic != name:
-							r.Fail("wrong-topic/"+form, "PUBLISH %v forwarded under %q, the ID denotes %q\n%s", p, m.Topic, name, tr.Dump(25))
-						case !bytes.Equal(m.Payload, p.Data):
-							r.Fail("payload-differs", "payload of %d octets forwarded as %d octets", len(p.Data), len(m.Payload))
-						case m.QoS != wantQ:
-							r.Fail(fmt.Sprintf("qos-differs/sn=%d,mqtt=%d", p.QoS, m.QoS), "PUBLISH %v forwarded as %v", p, m)
-						case m.Retain != p.Retain:
-							r.Fail("retain-differs", "PUBLISH %v forwarded as %v", p, m)
-						case m.Dup != p.DUP:
-							r.Fail("dup-differs", "PUBLISH %v forwarded as %v", p, m)
-						case wantQ > 0 && m.MsgID != p.MsgID:
-							r.Fail("msgid-differs", "PUBLISH %v forwarded as %v", p, m)
-						}
-					}
-				}
-				k.feed(i, e)
-			}
+			checkForwarding(c, tr, &r)
 			return
 		},
 	})
+}
+
+// checkForwarding judges every client PUBLISH of the script against the client's own knowledge of
+// topic IDs at that moment (C01; C04 uses it for "an ID never later denotes another name").
+func checkForwarding(c sessCase, tr *gwsim.Trace, r *vf.Result) {
+	k := newKnow(c)
+	seen := map[int]bool{}
+	for i, e := range tr.Events {
+		if e.Dir == gwsim.EV && e.What == "END" {
+			break
+		}
+		if e.Dir == gwsim.CG && e.SN != nil && e.SN.Type == snref.PUBLISH && !e.Auto && !seen[e.Step] && e.Step >= c.PreConnect {
+			seen[e.Step] = true
+			p := *e.SN
+			name, st := k.resolve(p.TIT, p.TopicID, false)
+			var pubs []mqttref.Pkt
+			for _, x := range stepEvents(tr, e.Step) {
+				if x.Dir == gwsim.GB && x.MQ != nil && x.MQ.Type == mqttref.PUBLISH {
+					pubs = append(pubs, *x.MQ)
+				}
+			}
+			form := fmt.Sprintf("tit=%d", p.TIT)
+			_, own := c.Script.Cfg.Predef[c.ClientID][p.TopicID]
+			_, star := c.Script.Cfg.Predef["*"][p.TopicID]
+			if (p.TIT == snref.TITNormal && st == "yes") || (p.TIT == snref.TITPredefined && own && star) || st == "no" {
+				r.NonTrivial = true
+			}
+			optional := (p.DUP && (p.QoS == 0 || p.QoS == 3)) || ((p.QoS == 1 || p.QoS == 2) && p.MsgID == 0)
+			switch st {
+			case "no":
+				r.Label("must-refuse:" + form)
+				if len(pubs) > 0 {
+					r.Fail("forwarded-undenoting-id/"+form, "PUBLISH %v denotes no topic but %v was forwarded\n%s", p, pubs[0], tr.Dump(25))
+				}
+			case "maybe":
+				r.Label("grey:" + form)
+			case "yes":
+				r.Label("must-forward:" + form)
+				if len(pubs) == 0 {
+					if optional || endedBefore(tr, e.Ns+101e6) {
+						break
+					}
+					r.Fail("not-forwarded/"+form, "PUBLISH %v (topic %q) was not forwarded\n%s", p, name, tr.Dump(25))
+					break
+				}
+				if len(pubs) > 1 {
+					r.Fail("forwarded-more-than-once/"+form, "PUBLISH %v forwarded %d times\n%s", p, len(pubs), tr.Dump(25))
+				}
+				m := pubs[0]
+				wantQ := p.QoS
+				if wantQ == 3 {
+					wantQ = 0
+				}
+				switch {
+				case m.Topic != name:
+					r.Fail("wrong-topic/"+form, "PUBLISH %v forwarded under %q, the ID denotes %q\n%s", p, m.Topic, name, tr.Dump(25))
+				case !bytes.Equal(m.Payload, p.Data):
+					r.Fail("payload-differs", "payload of %d octets forwarded as %d octets", len(p.Data), len(m.Payload))
+				case m.QoS != wantQ:
+					r.Fail(fmt.Sprintf("qos-differs/sn=%d,mqtt=%d", p.QoS, m.QoS), "PUBLISH %v forwarded as %v", p, m)
+				case m.Retain != p.Retain:
+					r.Fail("retain-differs", "PUBLISH %v forwarded as %v", p, m)
+				case m.Dup != p.DUP:
+					r.Fail("dup-differs", "PUBLISH %v forwarded as %v", p, m)
+				case wantQ > 0 && m.MsgID != p.MsgID:
+					r.Fail("msgid-differs", "PUBLISH %v forwarded as %v", p, m)
+				}
+			}
+		}
+		k.feed(i, e)
+	}
 }
 
 // ---- C02 ---------------------------------------------------------------------------------
@@ -964,15 +1001,19 @@ func runC03(c sessCase) (r vf.Result) {
 func TestC04(t *testing.T) {
 	vf.Check(t, vf.Prop[sessCase]{
 		ID: "C04", Name: "topic-ids-unique", Bubble: true,
-		Rule: "registration histories (client REGISTER of new and repeated names, SUBSCRIBE by plain name, broker PUBLISH on new names with the client acknowledging the gateway's REGISTER) run in a session whose topic-ID space is scaled down to 1..N (N in 2..12, through the verif-tagged hook) or, in a third of the cases, is the real range 1..0xFFFE with all but its top N IDs skipped beforehand, with predefined IDs placed inside that range (0xFFFE included) (visible to this client and not), 1-40 steps so that sequences run 2-3x past exhaustion. Non-trivial = the script reaches exhaustion (a refused registration) and continues; distinct by script.",
+		Rule: "registration histories (client REGISTER of new and repeated names, SUBSCRIBE by plain name, broker PUBLISH on new names with the client acknowledging the gateway's REGISTER - or leaving it unanswered while a duplicate of its previous REGACK arrives, followed by a client PUBLISH on an ID it was told) run in a session whose topic-ID space is scaled down to 1..N (N in 2..12, through the verif-tagged hook) or, in a third of the cases, is the real range 1..0xFFFE with all but its top N IDs skipped beforehand, with predefined IDs placed inside that range (0xFFFE included) (visible to this client and not), 1-40 steps so that sequences run 2-3x past exhaustion. Non-trivial = the script reaches exhaustion (a refused registration) and continues, or the client publishes on an ID which an earlier step introduced; distinct by script.",
 		Assumptions: []string{"scaled cases: the ID range is 1..N instead of 1..0xFFFE, only the range constant is scaled, the allocation logic is the session's own; top-of-range cases: the session's ID sequence is advanced 0xFFFE-N times before the session starts (skipped IDs are never handed out), bounds and wrap-around are the real ones",
 			"the same name may get the same ID again (REGISTER) or a new one (second SUBSCRIBE); ending the session instead of refusing is not flagged"},
 		Gen: func(t *rapid.T) sessCase {
-			return genSession(t, sessOpts{smallIDSpace: true, maxSteps: 40})
+			return genSession(t, sessOpts{smallIDSpace: true, staleRegack: true, maxSteps: 40})
 		},
 		Run: func(c sessCase) (r vf.Result) {
 			tr := gwsim.Run(c.Script)
 			checkIDs(c, tr, &r)
+			if len(r.Violations) == 0 {
+				// what an ID denotes for the gateway shows when the client uses it
+				checkForwarding(c, tr, &r)
+			}
 			return
 		},
 	})
